@@ -81,9 +81,58 @@ def cases(draw):
     return c
 
 
+def _svc_recurring(data, cfg):
+    from vf import service
+
+    return [{"op": op, "teams": t} for t in service.lineups(data, cfg) for op in ("predict_win", "predict_draw", "predict_rank")]
+
+
+def _svc_judge(spec, out, ctx):
+    from vf import service
+
+    beta = spec["cfg"]["beta"]
+    kind = spec["cfg"]["kind"]
+    for when in ("first", "last"):
+        for job, got in zip(spec["recurring"], out[when]):
+            teams, op = job["teams"], job["op"]
+            n = len(teams)
+            where = f"{kind}: {op} on {n} teams ({'one of the first calls of the process' if when == 'first' else 'after ' + str(out['fillers']) + ' other calls through the same model'})"
+            if service.raised(got):
+                raise Violation(f"service:{when}:raised", f"{where} raised {got['raised']}")
+            if op == "predict_win":
+                ref = refpredict.predict_win(teams, beta)
+                vals_ = list(got)
+            elif op == "predict_draw":
+                ref = [refpredict.predict_draw(teams, beta)]
+                vals_ = [got]
+            else:
+                ref = refpredict.predict_rank_probs(teams, beta)
+                vals_ = [p for _, p in got]
+            for i, (a, b) in enumerate(zip(vals_, ref)):
+                if abs(M(a) - b) > TOL:
+                    raise Violation(f"service:{when}:{op}", f"{where}: value {i} = {a!r}, closed form {float(b)!r}")
+
+
+_SVC_CUSTOM, _SVC_CHECK = None, None
+
+
+def _svc():
+    global _SVC_CUSTOM, _SVC_CHECK
+    if _SVC_CUSTOM is None:
+        from vf import service
+
+        _SVC_CUSTOM, _SVC_CHECK = service.make_clause_functions(_svc_recurring, _svc_judge)
+    return _SVC_CUSTOM, _SVC_CHECK
+
+
 PROPERTY = Property(
     pid="C12",
-    clauses=[Clause(name="closed-forms", strategy=cases(), check=check_c12, quick=4000, thorough=60000,
+    clauses=[Clause(name="long-running-service", kind="custom", custom=lambda *a: _svc()[0](*a), check=lambda *a: _svc()[1](*a), quick=16, thorough=64,
+                    shards_quick=16, shards_thorough=16,
+                    rule="one fresh child interpreter and ONE long-lived model per case: the three predictions on 9 recurring line-ups (newcomers on default "
+                         "ratings + generated ones) are the first calls of the process, then 9 000 (quick) / 70 000 (thorough) other calls with ever new line-ups, "
+                         "then the recurring predictions again: every number, early and late, within 1e-9 of the closed form; non-trivial = at least 4 200 calls in between"),
+             Clause(name="closed-forms", strategy=cases(), check=check_c12, quick=4000, thorough=60000,
                     rule="one list of teams; all numbers of predict_win / predict_draw / predict_rank vs a 50-digit evaluation of the stated closed forms; "
                          "non-trivial = >= 3 teams (two-team cases are labelled: they exercise the N-vs-n special case)")],
     rule="generated teams (2..8 x 1..8, all regimes, scale 1e-3..1e3, all five classes); oracle: 1e-9 absolute agreement with mpmath closed forms of C12; "
